@@ -234,6 +234,54 @@ impl<'a> Dj<'a> {
         self.cx.rep.hit(&format!("space:N={},u={},J<={}", N, u, maxj));
     }
 
+    /// large maps (N = 300, so slot indices beyond 255) and long tuples (J = 65, 70 > 64)
+    pub fn big(&mut self, cases: u64, modes: &[Mode]) {
+        const N: usize = 300;
+        for i in 0..cases {
+            let mut rng: Rng = self.cx.hist_rng(11_000_000 + i * self.cx.shard.1 + self.cx.shard.0);
+            ledger::reset();
+            let len = if rng.chance(1, 2) { N } else { 257 + rng.usize_below(N - 257) };
+            let mut cl: Vec<u32> = (1..=(N as u32 + 5)).collect();
+            rng.shuffle(&mut cl);
+            let layout: Vec<u32> = cl[..len].to_vec();
+            let mut m: Map<TK, TV, N> = Map::new();
+            for (i, c) in layout.iter().enumerate() {
+                m.insert(TK::new(*c, i as u32), TV::new(100 + *c));
+            }
+            let mut fr = Frame::boxed(m);
+            self.case_no += 1;
+            // keys stored in slots >= 256, mixed with low slots and absent keys
+            let hi = |rng: &mut Rng| layout[256 + rng.usize_below(len - 256)];
+            let lo = |rng: &mut Rng| layout[rng.usize_below(256)];
+            let absent = N as u32 + 50;
+            for _ in 0..4 {
+                let (a, b, c) = (hi(&mut rng), lo(&mut rng), hi(&mut rng));
+                for mode in modes {
+                    self.one::<N, 2>(&mut fr, &layout, [a, b], *mode);
+                    self.one::<N, 2>(&mut fr, &layout, [a, absent], *mode);
+                    if a != c {
+                        self.one::<N, 3>(&mut fr, &layout, [c, b, a], *mode);
+                    }
+                }
+            }
+            // more than 64 pairwise-different keys
+            rng.shuffle(&mut cl);
+            let t65: [u32; 65] = core::array::from_fn(|i| cl[i]);
+            let t70: [u32; 70] = core::array::from_fn(|i| cl[cl.len() - 1 - i]);
+            for mode in modes {
+                self.one::<N, 65>(&mut fr, &layout, t65, *mode);
+                self.one::<N, 70>(&mut fr, &layout, t70, *mode);
+            }
+            self.cx.rep.hit("big-map(N=300):slots>=256");
+            self.cx.rep.hit("long-tuple(J>64)");
+            drop(fr);
+            if ledger::viol_total() > 0 {
+                let d = format!("big case: Map<_,_,300> with {} entries (slot order starts {:?}...)", len, &layout[..8]);
+                self.cx.rep.absorb_violations(&self.cx.prop.clone(), &|| vec![d.clone()]);
+            }
+        }
+    }
+
     /// random larger maps with longer tuples (J = 5, 8)
     pub fn random<const N: usize>(&mut self, cases: u64, modes: &[Mode]) {
         for i in 0..cases {
